@@ -2,6 +2,7 @@ package main
 
 import (
 	"fmt"
+	"sync"
 	"go/ast"
 	"go/token"
 	"go/types"
@@ -39,6 +40,9 @@ type Prog struct {
 	namedTypes   []*types.Named
 	repo         string
 	sweepInlined []*ssa.Function
+	reachCache   map[[2]*ssa.Function]bool
+	reachMu      sync.Mutex
+	genMu        sync.Mutex
 	nonNilGlobals map[*ssa.Global]bool // write-once package variables initialised with a non-nil value
 }
 
@@ -104,7 +108,7 @@ func loadProg(repo, contractsDir string) (*Prog, error) {
 	P := &Prog{prog: prog, pkgs: pkgs, fset: prog.Fset, funcs: map[string]*ssa.Function{}, keyOf: map[*ssa.Function]string{},
 		specs: sp, dirty: map[string]bool{}, mods: map[*ssa.Function]map[string]bool{}, typeID: map[string]int{}, typeBy: map[int]types.Type{},
 		files: map[string]*ast.File{}, byPos: map[token.Pos]ast.Node{}, addrTaken: map[string][]*ssa.Function{},
-		implCache: map[string][]*ssa.Function{}, pkgByPath: map[string]*ssa.Package{}, src: map[string][]byte{}, repo: repo}
+		implCache: map[string][]*ssa.Function{}, pkgByPath: map[string]*ssa.Package{}, src: map[string][]byte{}, repo: repo, reachCache: map[[2]*ssa.Function]bool{}}
 	all := ssautil.AllFunctions(prog)
 	var fl []*ssa.Function
 	for f := range all {
